@@ -6,6 +6,7 @@
   through the ghost logs of released signatures.
 -/
 import Dirk.Lemmas.Dom
+import Dirk.Props.KernelsEq
 
 namespace Dirk
 
@@ -153,5 +154,11 @@ example : onSign ["10.0.0.1"] "" ([2, 0, 0, 0] ++ List.replicate 28 0) = .approv
 example : onSign ["10.0.0.1"] "10.0.0.1" ([4, 0, 0, 0] ++ List.replicate 28 0) = .approved := by decide
 example : onSign ["10.0.0.1"] "10.0.0.2" ([4, 0, 0, 0] ++ List.replicate 28 0) = .denied := by decide
 example : onSign [] "" ([1, 0, 0, 0] ++ List.replicate 28 0) = .denied := by decide
+
+/-- **tie by translation.** The generic-signing rule the theorems above are about is, for all administrator
+    lists, source addresses and domains, the function `factx` translates from the current Go source of `OnSign`. -/
+theorem C05_kernel_is_source (adminIPs : List String) (ip : String) (domain : Bytes) :
+    onSign adminIPs ip domain = Gen.onSignGen false adminIPs ip domain :=
+  onSign_eq_gen adminIPs ip domain
 
 end Dirk
